@@ -27,6 +27,7 @@ at random instants while a reader polls the target.
 Correspondence (T2): the recorded effect trace, the target content after every step (and the temporary file's content
 when the harness controls the buffering), the outcome and the final directory equal the model's (`c18 run`, `c18 two`).
 """
+import io
 import itertools
 import os as real_os
 import shutil
@@ -71,9 +72,15 @@ def canon_class(e):
 class Env:
     """one scratch directory, one target, the patched view of `open`/`os` for prometheus_client.exposition"""
 
-    def __init__(self, old, others=None):
-        self.dir = tempfile.mkdtemp(prefix='pv-c18-')
+    def __init__(self, old, others=None, pathform='abs'):
+        self.root = tempfile.mkdtemp(prefix='pv-c18-')
+        self.dir = real_os.path.join(self.root, 'sub') if pathform == 'sub' else self.root
+        if pathform == 'sub':
+            real_os.mkdir(self.dir)
         self.target = real_os.path.join(self.dir, 'metrics.prom')
+        # how the caller names the target, and the working directory for the call (None = leave it alone)
+        self.callpath, self.cwd = {'abs': (self.target, None), 'bare': ('metrics.prom', self.dir),
+                                   'dot': ('./metrics.prom', self.dir), 'sub': ('sub/metrics.prom', self.root)}[pathform]
         self.others = dict(others or {'unrelated.prom': b'keep me\n'})
         for n, c in self.others.items():
             with real_open(real_os.path.join(self.dir, n), 'wb') as f:
@@ -89,19 +96,23 @@ class Env:
         self.touched = set()        # base names of the paths the code under test named in a wrapped call
 
     def close(self):
-        shutil.rmtree(self.dir, ignore_errors=True)
+        shutil.rmtree(self.root, ignore_errors=True)
 
     def run_of_thread(self):
         return getattr(self.local, 'run', None)
 
-    def classify(self, p):
+    def classify(self, p, allow_dir=False):
         try:
             p = real_os.fspath(p)
         except TypeError:
             return None
         if isinstance(p, bytes):
             p = p.decode('utf-8', 'replace')
+        if p == '' and self.cwd is None:
+            return None
         p = real_os.path.abspath(p)
+        if allow_dir and p == self.dir:
+            return 'dir'
         if real_os.path.dirname(p) != self.dir:
             return None
         self.touched.add(real_os.path.basename(p))
@@ -133,13 +144,16 @@ class Run:
         self.env = env
         self.who = who
         self.fault = fault          # None | dict(pos, cls, ident, part, natural?)
-        self.exc = make_exc(fault['cls'], fault['ident']) if fault and not fault.get('natural') else None
+        self.exc = make_exc(fault['cls'], fault['ident']) if fault and not fault.get('natural') and fault['cls'] != 'short' else None
         self.cuts = cuts            # None = pass f.write(data) through unchanged; else list of (n, flush)
         self.last_flush = last_flush
         self.k = 0
         self.steps = []
         self.fired = False
         self.tmp_expected = None
+        self.fds = {}               # raw file descriptors the call holds on scratch paths -> which path
+        self.short_active = False   # a raw write issued during the current step is to be cut short
+        self.natural_failed = False # a step failed on its own: under the single-fault rule the injected fault is then disarmed
 
     def snap(self, kind, pathcls, faulted):
         env = self.env
@@ -149,13 +163,31 @@ class Run:
         self.steps.append(rec)
         env.log.append(rec)
 
-    def step(self, kind, pathcls, do, fault_do=None):
+    def step(self, kind, pathcls, do, fault_do=None, short_do=None):
         if self.env.sched is not None:
             self.env.sched.yield_point(self.who)
         idx = self.k
         self.k += 1
         f = self.fault
-        if f is not None and f['pos'] == idx and not self.fired:
+        if f is not None and f['cls'] == 'short':
+            # SHORT WRITE: no exception — the OS accepts only part of the buffer and says so in the return value
+            if f['pos'] == idx and not self.fired:
+                if short_do is not None:
+                    self.fired = True
+                    r = short_do(f.get('part', 1))
+                    self.snap(kind, pathcls, False)
+                    return r
+                self.short_active = True
+            try:
+                r = do()
+            except BaseException:
+                self.snap(kind, pathcls, True)
+                raise
+            finally:
+                self.short_active = False
+            self.snap(kind, pathcls, False)
+            return r
+        if f is not None and f['pos'] == idx and not self.fired and not self.natural_failed:
             self.fired = True
             if f.get('natural'):
                 r = do()
@@ -163,11 +195,19 @@ class Run:
                 return r
             try:
                 if fault_do is not None:
-                    fault_do(f.get('part', 0))
+                    try:
+                        fault_do(f.get('part', 0))
+                    except Exception:       # the partial work itself was impossible here; the injected fault still is the fault
+                        pass
             finally:
                 self.snap(kind, pathcls, True)
             raise self.exc
-        r = do()
+        try:
+            r = do()
+        except BaseException:       # the step failed on its own (e.g. os.open('') → FileNotFoundError): still a cut point
+            self.natural_failed = True
+            self.snap(kind, pathcls, True)
+            raise
         self.snap(kind, pathcls, False)
         return r
 
@@ -239,14 +279,33 @@ class FileW:
     def close(self):
         if self._closed:
             return
-        self._run.step('close', self._pc, self._close, self._close_fault)
+        try:
+            fd = self._raw.fileno()
+        except Exception:
+            fd = None
+        try:
+            self._run.step('close', self._pc, self._close, self._close_fault)
+        finally:
+            self._run.fds.pop(fd, None)
+
+    def _flush(self):
+        if self._pending:
+            self._raw.write(self._pending)
+            self._pending = b''
+        self._raw.flush()
+
+    def flush(self):
+        if self._closed:
+            return self._raw.flush()
+        return self._run.step('flush', self._pc, self._flush)
 
     def __getattr__(self, n):
         return getattr(self._raw, n)
 
 
 # originals, captured before anything is patched: the harness's own snapshots and set-up always use these
-ORIG = {'rename': real_os.rename, 'replace': real_os.replace, 'remove': real_os.remove, 'unlink': real_os.unlink,
+ORIG = {'open': real_os.open, 'write': real_os.write, 'fsync': real_os.fsync, 'fdatasync': real_os.fdatasync, 'close': real_os.close,
+        'rename': real_os.rename, 'replace': real_os.replace, 'remove': real_os.remove, 'unlink': real_os.unlink,
         'exists': real_os.path.exists, 'lexists': real_os.path.lexists, 'isfile': real_os.path.isfile}
 
 
@@ -305,6 +364,97 @@ def make_rm(env, name):
     return rm
 
 
+class ShortRaw(io.RawIOBase):
+    """the raw (unbuffered) file under the buffered writer the code under test gets: the place where the OS may accept
+    only part of a buffer.  A real `io.BufferedWriter` sits on top of it, so code that relies on the buffered writer's
+    retry loop is unaffected by a short write, and code that writes raw and ignores the count is not."""
+
+    def __init__(self, fileio, run):
+        super().__init__()
+        self._f, self._run = fileio, run
+
+    def writable(self): return True
+    def seekable(self): return self._f.seekable()
+    def fileno(self): return self._f.fileno()
+    def tell(self): return self._f.tell()
+    def seek(self, *a): return self._f.seek(*a)
+    def truncate(self, *a): return self._f.truncate(*a)
+
+    def write(self, b):
+        run = self._run
+        n = len(b)
+        if run.short_active and not run.fired and n >= 2:
+            run.fired = True
+            k = max(1, min(int(run.fault.get('part', 1)), n - 1))
+            return self._f.write(bytes(b[:k]))
+        return self._f.write(b)
+
+    def close(self):
+        if not self.closed:
+            try:
+                super().close()
+            finally:
+                self._f.close()
+
+
+def make_osopen(env):
+    fn = ORIG['open']
+
+    def osopen(p, flags, *a, **kw):
+        run = env.run_of_thread()
+        if run is None or kw.get('dir_fd') is not None:
+            return fn(p, flags, *a, **kw)
+        pc = env.classify(p, allow_dir=True)
+        if pc is None:
+            return fn(p, flags, *a, **kw)
+
+        def do():
+            fd = fn(p, flags, *a, **kw)
+            run.fds[fd] = pc
+            return fd
+
+        def fault_do(part):
+            if part and (flags & real_os.O_CREAT):
+                ORIG['close'](fn(p, flags, *a, **kw))
+        return run.step('open', pc, do, fault_do)
+    return osopen
+
+
+def make_oswrite(env):
+    fn = ORIG['write']
+
+    def oswrite(fd, data):
+        run = env.run_of_thread()
+        pc = run.fds.get(fd) if run is not None else None
+        if pc is None:
+            return fn(fd, data)
+
+        def short(part):
+            b = bytes(data)
+            if len(b) < 2:
+                return fn(fd, b)
+            return fn(fd, b[:max(1, min(int(part), len(b) - 1))])
+        return run.step('write', pc, lambda: fn(fd, data), lambda part: fn(fd, bytes(data)[:part]), short)
+    return oswrite
+
+
+def make_osfd(env, name, kind):
+    fn = ORIG[name]
+
+    def fdop(fd):
+        run = env.run_of_thread()
+        pc = run.fds.get(fd) if run is not None else None
+        if pc is None:
+            return fn(fd)
+        if kind == 'close':
+            def do():
+                run.fds.pop(fd, None)
+                return fn(fd)
+            return run.step('close', pc, do, lambda part: do())
+        return run.step(kind, pc, lambda: fn(fd))
+    return fdop
+
+
 def make_open(env):
     def wrapped_open(p, mode='r', *a, **kw):
         run = env.run_of_thread()
@@ -314,9 +464,19 @@ def make_open(env):
         if pc is None:
             return real_open(p, mode, *a, **kw)
         box = {}
+        buffering = a[0] if a else kw.get('buffering', -1)
+        plain_write = 'b' in mode and '+' not in mode and 'r' not in mode and len(a) <= 1 and set(kw) <= {'buffering'}
 
         def do():
-            box['raw'] = real_open(p, mode, *a, **kw)
+            if plain_write:
+                raw = ShortRaw(real_open(p, mode, buffering=0), run)
+                box['raw'] = raw if buffering == 0 else io.BufferedWriter(raw)
+            else:
+                box['raw'] = real_open(p, mode, *a, **kw)
+            try:
+                run.fds[box['raw'].fileno()] = pc
+            except Exception:
+                pass
 
         def fault_do(part):
             if part:        # the file was created, then the call failed
@@ -346,6 +506,7 @@ def make_generate(env, real_generate):
 
 class Patched:
     """For the duration of a with-block the file effects are instrumented PROCESS-WIDE — `builtins.open`/`io.open`,
+    `os.open`/`os.write`/`os.fsync`/`os.close` (on descriptors the call opened on scratch paths or the scratch directory),
     `os.rename`, `os.replace`, `os.remove`, `os.unlink`, `os.path.exists`/`lexists`/`isfile` — so that effects reached
     indirectly (through shutil, pathlib, a helper …) are recorded, snapshotted and faultable exactly like direct ones.
     The wrappers act only in a thread that is executing an instrumented call and only on paths inside the scratch
@@ -370,6 +531,11 @@ class Patched:
             wo = make_open(env)
             put(builtins, 'open', wo)
             put(io, 'open', wo)
+            put(real_os, 'open', make_osopen(env))
+            put(real_os, 'write', make_oswrite(env))
+            put(real_os, 'fsync', make_osfd(env, 'fsync', 'fsync'))
+            put(real_os, 'fdatasync', make_osfd(env, 'fdatasync', 'fsync'))
+            put(real_os, 'close', make_osfd(env, 'close', 'close'))
             put(real_os, 'rename', make_mv(env, 'rename'))
             put(real_os, 'replace', make_mv(env, 'replace'))
             put(real_os, 'remove', make_rm(env, 'remove'))
@@ -453,7 +619,8 @@ def run_single(case):
     """execute one scenario on the real code; returns the observation dict"""
     from prometheus_client import exposition
     old = unhex(case['old'])
-    env = Env(old)
+    env = Env(old, pathform=case.get('pathform') or 'abs')
+    cwd0 = real_os.getcwd()
     try:
         env.osname = case.get('osname') or real_os.name
         spec = [tuple(x) for x in case['reg']]
@@ -469,21 +636,25 @@ def run_single(case):
                 fh.write(STALE)
         initial_listing = env.listing()
         raised = None
+        if env.cwd is not None:
+            real_os.chdir(env.cwd)          # relative target: bare file name, ./name, sub/name
         with Patched(env):
             env.local.run = run
             try:
-                exposition.write_to_textfile(env.target, reg)
+                exposition.write_to_textfile(env.callpath, reg)
             except BaseException as e:      # noqa: the oracle wants to see everything that reaches the caller
                 raised = e
             finally:
                 env.local.run = None
+                real_os.chdir(cwd0)
         obs = {'old': old, 'new': new, 'parts': parts, 'steps': run.steps, 'raised': raised, 'injected': run.exc,
                'final_target': env.read(env.target), 'final_listing': env.listing(), 'initial_listing': initial_listing,
                'final_fs': {n: env.read(real_os.path.join(env.dir, n)) for n in env.listing()},
                'others': env.others, 'tmp_expected': run.tmp_expected, 'target': env.target, 'fired': run.fired,
-               'touched': set(env.touched)}
+               'touched': set(env.touched), 'natural_failed': run.natural_failed}
         return obs
     finally:
+        real_os.chdir(cwd0)
         env.close()
 
 
@@ -513,6 +684,14 @@ def oracle_single(ctx, case, obs):
         if obs['final_fs'].get(n) != c:
             fail('C18:other-file-touched', 'unrelated file %s changed' % n)
     raised, fault = obs['raised'], case.get('fault')
+    if fault is not None and not obs['fired'] and obs.get('natural_failed'):
+        fault = None        # a step failed on its own before the injection point: that failure is the one fault of this run
+    elif fault is not None and fault['cls'] != 'short' and not obs['fired']:
+        # the call has fewer steps than the scenario assumed: it ran fault-free and is judged as such; the coverage gap is
+        # reported after every real failure
+        ctx.extra.setdefault('_deferred', []).append(('C18:fault-not-reached', 'fault %s at step %d was never reached (the call has fewer steps than '
+                                                      'expected) | scenario: %s' % (fault['cls'], fault['pos'], describe(case)), case))
+        fault = None
     base = real_os.path.basename(obs['target'])
     extra = [n for n in obs['final_listing'] if n not in obs['others'] and n != base]
     if case.get('stale'):
@@ -520,18 +699,37 @@ def oracle_single(ctx, case, obs):
         sb = real_os.path.basename(obs['tmp_expected'])
         if sb not in obs['touched'] and obs['final_fs'].get(sb) == STALE:
             extra = [n for n in extra if n != sb]
+    if fault is not None and fault['cls'] == 'short':
+        # a short write is not an error: the OS accepted part of a buffer and said so.  The call must still either install
+        # the COMPLETE exposition or raise and leave everything as it was.
+        where = 'short write (the OS accepts only %s byte(s) of the buffer and returns that count) at step %d' % (fault.get('part', 1), fault['pos'])
+        if not obs['fired']:
+            where = 'no fault'
+        if raised is None:
+            if obs['final_target'] != new:
+                fail('C18:short-write-installed-partial', '%s: the call returned normally but the target holds %s — not the complete new exposition (%s)'
+                     % (where, show(obs['final_target']), show(new)))
+        elif obs['final_target'] != old:
+            fail('C18:target-changed-on-failure', '%s: the call raised %r but the target holds %s instead of its previous content (%s)'
+                 % (where, raised, show(obs['final_target']), show(old)))
+        if extra:
+            fail('C18:tmp-left', '%s: the call is over and left %s behind' % (where, extra))
+        return fails
     if fault is None:
         if raised is not None:
-            fail('C18:spurious-raise', 'fault-free call raised %r' % raised)
+            if obs['final_target'] != old:
+                fail('C18:target-changed-on-failure', 'no fault injected: the call raised %r although the target had already been replaced (it holds %s, '
+                     'previous content %s) — "when the call raises, the target is unchanged"' % (raised, show(obs['final_target']), show(old)))
+            else:
+                # clean as far as the property goes (target unchanged, exception delivered); reported after everything else
+                ctx.extra.setdefault('_deferred', []).append(('C18:spurious-raise', 'no fault injected, yet the call raised %r (target unchanged) | scenario: %s'
+                                                              % (raised, describe(case)), case))
         elif obs['final_target'] != new:
             fail('C18:not-installed', 'call returned but the target holds %s, not the new exposition (%s)' % (show(obs['final_target']), show(new)))
         if extra:
             fail('C18:tmp-left', 'call returned but left %s behind' % extra)
         return fails
     where = 'fault %s at step %d' % (fault['cls'], fault['pos'])
-    if not obs['fired']:
-        fail('C18:fault-not-reached', '%s was never reached (the call has fewer steps than expected)' % where)
-        return fails
     is_exc = fault['cls'] in EXC_CLASSES
     if raised is None:
         fail('C18:exception-swallowed', '%s: the call returned normally, the exception did not reach the caller' % where)
@@ -562,8 +760,10 @@ def describe(case):
     return 'registry of %d collectors %s, previous target %s, write %s, %s%s' % (
         len(case['reg']), case['reg'], 'absent' if case['old'] is None else '%d bytes' % (len(case['old']) // 2),
         'passed through' if case['cuts'] is None else 'split %s last-flush=%s' % (case['cuts'], case.get('last_flush')),
-        'no fault' if not f else 'fault %s at step %d (part %s%s)' % (f['cls'], f['pos'], f.get('part', 0), ', natural' if f.get('natural') else ''),
-        (', os.name=%s' % case['osname'] if case.get('osname') else '') + (', stale temporary file present' if case.get('stale') else ''))
+        'no fault' if not f else 'short write of %s byte(s) at step %d' % (f.get('part', 1), f['pos']) if f['cls'] == 'short' else
+        'fault %s at step %d (part %s%s)' % (f['cls'], f['pos'], f.get('part', 0), ', natural' if f.get('natural') else ''),
+        (', os.name=%s' % case['osname'] if case.get('osname') else '') + (', stale temporary file present' if case.get('stale') else '')
+        + ({'bare': ', target given as a bare file name (cwd = its directory)', 'dot': ', target given as ./name', 'sub': ', target given as sub/name'}.get(case.get('pathform'), '')))
 
 
 def fs_field(entries):
@@ -572,7 +772,7 @@ def fs_field(entries):
 
 def request_single(case, obs):
     fault = case.get('fault')
-    fl = '-' if not fault else '%d,%s,%d,%d' % (fault['pos'], fault['cls'], fault['ident'], fault.get('part', 0))
+    fl = '-' if (not fault or fault['cls'] == 'short') else '%d,%s,%d,%d' % (fault['pos'], fault['cls'], fault['ident'], fault.get('part', 0))
     cuts = [] if case['cuts'] is None else case['cuts']
     fs0 = [(n, c) for n, c in sorted(obs['others'].items())]
     if obs['old'] is not None:
@@ -615,7 +815,7 @@ def compare_single(ctx, case, obs, reply):
     raised = obs['raised']
     if raised is None:
         real_out = 'ok'
-    elif case['fault'] and case['fault'].get('natural'):
+    elif case.get('fault') and case['fault'].get('natural'):
         real_out = 'raise,%s,%d' % (canon_class(raised), case['fault']['ident'])
     else:
         real_out = 'raise,%s,%s' % (canon_class(raised), getattr(raised, 'pv_ident', '?'))
@@ -971,6 +1171,20 @@ def single_cases(ctx, regs, wide):
                     if oi == 1 and vi == 0:
                         ident += 1
                         yield dict(base, fault={'pos': pos, 'cls': 'OSError', 'ident': ident, 'part': 0}, osname='nt')
+                # SHORT WRITE at every write step and at the close (whichever reaches the raw file first cuts it)
+                npc = n_pieces(cuts)
+                for pos in range(len(reg) + 2, len(reg) + 2 + npc + 1):
+                    ident += 1
+                    yield dict(base, fault={'pos': pos, 'cls': 'short', 'ident': ident,
+                                            'part': 1 if (pos + oi) % 2 else max(1, nbytes // 2)})
+                # the target named relatively: bare file name, ./name, sub/name (the call runs with cwd inside the scratch tree)
+                if vi == 0:
+                    for pi, pf in enumerate(('bare', 'dot', 'sub')):
+                        pbase = dict(base, pathform=pf)
+                        yield dict(pbase, fault=None)
+                        for pos in range(blen):
+                            ident += 1
+                            yield dict(pbase, fault={'pos': pos, 'cls': EXC_CLASSES[(pos + pi) % len(EXC_CLASSES)], 'ident': ident, 'part': 0})
                 # a natural encoding error from each collector (lone surrogate in a label value)
                 if vi in (0, 1) and oi < 2:
                     for i in range(len(reg)):
@@ -1008,7 +1222,13 @@ def two_cases(ctx, wide):
 # ------------------------------------------------------------------------------------------------ entry points
 def eval_cases(ctx, cases, deadline=None):
     reqs, pend = [], []
-    for case in cases:
+    extras = []
+
+    def with_extras():
+        yield from cases
+        while extras:
+            yield extras.pop(0)
+    for case in with_extras():
         if deadline is not None and time.time() > deadline:
             ctx.count('cases-not-run-for-lack-of-time')
             continue
@@ -1016,18 +1236,28 @@ def eval_cases(ctx, cases, deadline=None):
             obs = run_single(case)
             oracle_single(ctx, case, obs)
             f = case.get('fault')
-            key = ('single', str(case['reg']), case['old'], str(case['cuts']), case.get('last_flush'), case.get('osname'), case.get('stale'),
+            key = ('single', str(case['reg']), case['old'], str(case['cuts']), case.get('last_flush'), case.get('osname'), case.get('stale'), case.get('pathform'),
                    None if not f else (f['pos'], f['cls'], f.get('part', 0), bool(f.get('natural'))))
             nontrivial = f is not None or case['old'] is not None or case['cuts'] is not None
             ctx.case(key if nontrivial else None,
                      {'scenario': describe(case), 'trace': [(s['kind'], s['path'], s['faulted']) for s in obs['steps']],
                       'outcome': 'returned' if obs['raised'] is None else 'raised ' + type(obs['raised']).__name__,
                       'final_listing': [n.replace(str(real_os.getpid()), '<pid>') for n in obs['final_listing']]})
-            ctx.count('single:' + ('no-fault' if not f else 'fault:' + f['cls'] + (':natural' if f.get('natural') else '')))
+            ctx.count('single:' + ('no-fault' if not f else 'short-write' if f['cls'] == 'short' else 'fault:' + f['cls'] + (':natural' if f.get('natural') else '')))
             if f:
                 fs = [s for s in obs['steps'] if s['faulted']]
                 if fs:
                     ctx.count('fault-at:' + fs[0]['kind'].rstrip('0123456789'))
+            if case.get('pathform'):
+                ctx.count('target-path:' + case['pathform'])
+            if f and f['cls'] == 'short':
+                ctx.count('short-write:' + ('cut a raw write' if obs['fired'] else 'no raw write in that step'))
+            # the call has MORE effects than the modelled body (e.g. something after the rename): they are fault positions too
+            if f is None and obs['raised'] is None and len(obs['steps']) > body_len(case) and len(extras) < 400 and not case.get('_extra'):
+                for pos in range(body_len(case), len(obs['steps'])):
+                    for cls in ('OSError', 'RuntimeError'):
+                        extras.append(dict(case, _extra=True, fault={'pos': pos, 'cls': cls, 'ident': 5000 + len(extras), 'part': 0}))
+                ctx.count('calls-with-more-effects-than-the-modelled-body')
             ctx.count('old:' + ('absent' if case['old'] is None else 'empty' if case['old'] == '' else 'present'))
             ctx.count('write:' + ('passthrough' if case['cuts'] is None else '%d-pieces' % (len(case['cuts']) + 1)))
             reqs.append(request_single(case, obs))
@@ -1085,6 +1315,12 @@ def run(ctx):
     ctx.extra['phase_s']['real code + model driver, single calls and two writers'] = round(t_mid - t_start, 1)
     ctx.extra['phase_s']['SIGKILL trials'] = round(time.time() - t_mid, 1)
     ctx.extra.setdefault('documented_limits', {})
+    flush_deferred(ctx)
+
+
+def flush_deferred(ctx):
+    for sig, what, case in ctx.extra.pop('_deferred', []):
+        ctx.fail(sig, what, case)
 
 
 def replay(ctx, case):
@@ -1094,6 +1330,7 @@ def replay(ctx, case):
         kill_trials(ctx, max(50, int(c.get('trials', 50))), tuple(c.get('sizes', (400, 3000))))
     else:
         eval_cases(ctx, [c])
+    flush_deferred(ctx)
     for f in ctx.failures:
         print('REPLAY-FAIL', f['sig'], f['what'])
     for f in ctx.divergences:
